@@ -1,6 +1,7 @@
 //@ unit U-RECONPLAN
 //@ props C17
 //@ verus-args --rlimit 100
+//@ config NUM_CONCURRENT_RANGE_GETS
 #![allow(non_snake_case, unused)]
 use vstd::prelude::*;
 verus! {
@@ -41,8 +42,8 @@ impl PartialEq for Range<u32> {
 #[verifier::external_body] pub struct ProgressStub { _p: () }
 #[verifier::external_body] pub fn vx_progress(p: &ProgressStub, len: u64) { unimplemented!() }
 
-// the sequential writer's term stream: `futures::stream::iter(..).buffered(n).enumerate()` yields the terms' payloads
-// (results of `get_one_term`) in plan order, numbered from 0
+// an enumerated stream of term results: `next()` yields (k, k-th item of `items()`); WHAT order `items()` is in is decided by the
+// combinators the code calls (FutStream::buffered / buffer_unordered below)
 #[verifier::external_body] pub struct TermStream { _p: () }
 impl TermStream {
     pub uninterp spec fn items(&self) -> Seq<Seq<u8>>;
@@ -286,10 +287,39 @@ pub proof fn lemma_c17_writers_agree(data: Seq<Seq<u8>>, off: int, total: int, s
 // (ii) sequential writer: the WHOLE body of `reconstruct_file_to_writer` (total_len, fetch-and-write loop, returned length)
 #[verifier::external_body] struct TermFutures { _p: () }        // the lazy iterator of `get_one_term` futures, one per term
 impl TermFutures { uninterp spec fn items(&self) -> Seq<Seq<u8>>; }
+// `futures::stream` combinators as the code calls them.  The contracts are the documented semantics of the futures crate:
+//   stream::iter(it)            a stream yielding the iterator's items (here: futures) in iterator order
+//   .buffered(n)                runs up to n futures concurrently, yields their outputs IN THE ORDER OF THE UNDERLYING STREAM
+//   .buffer_unordered(n)        same, but yields outputs in COMPLETION order: some permutation, nothing more is known
+//   .enumerate()                pairs the k-th yielded item with k   (TermStream::next)
+// so the order property is a consequence of WHICH combinator the extracted text calls, not an assumption about the loop.
+#[verifier::external_body] struct FutStream { _p: () }          // stream::Iter<Map<IntoIter<Term>, closure>>
+impl FutStream {
+    uninterp spec fn items(&self) -> Seq<Seq<u8>>;              // output of the k-th submitted future
+    #[verifier::external_body]
+    fn buffered(self, n: usize) -> (r: OutStream)
+        ensures r.yields() == self.items(),
+    { unimplemented!() }
+    #[verifier::external_body]
+    fn buffer_unordered(self, n: usize) -> (r: OutStream)
+        ensures exists|sigma: Seq<int>| is_perm(sigma, self.items().len() as int) && r.yields() == permuted(self.items(), sigma),
+    { unimplemented!() }
+}
+spec fn permuted(items: Seq<Seq<u8>>, sigma: Seq<int>) -> Seq<Seq<u8>> { Seq::new(sigma.len(), |k: int| items[sigma[k]]) }
+#[verifier::external_body] struct OutStream { _p: () }          // Buffered<..> / BufferUnordered<..>
+impl OutStream {
+    uninterp spec fn yields(&self) -> Seq<Seq<u8>>;             // the k-th item the stream will yield
+    #[verifier::external_body]
+    fn enumerate(self) -> (r: TermStream)
+        ensures r.items() == self.yields(), r.pos() == 0,
+    { unimplemented!() }
+}
 #[verifier::external_body]
-fn vx_buffered_enumerate(futs_iter: TermFutures) -> (r: TermStream)
-    ensures r.items() == futs_iter.items(), r.pos() == 0,
+fn vx_stream_iter(futs_iter: TermFutures) -> (r: FutStream)
+    ensures r.items() == futs_iter.items(),
 { unimplemented!() }
+uninterp spec fn spec_NUM_CONCURRENT_RANGE_GETS() -> usize;
+#[verifier::external_body] fn NUM_CONCURRENT_RANGE_GETS() -> (r: usize) ensures r == spec_NUM_CONCURRENT_RANGE_GETS() { unimplemented!() }
 // what `get_one_term` returns for a term: the unpacked bytes of its chunk range (network / cache: outside reach)
 uninterp spec fn term_payload(term: CASReconstructionTerm) -> Seq<u8>;
 #[verifier::external_body] struct RemoteClient { _p: () }
@@ -311,7 +341,7 @@ impl RemoteClient {
 //@ epilogue `.vx_with(writer)`
 //@ subst `terms.iter().fold(0, |acc, x| acc + x.unpacked_length as u64)` => `vx_sum_unpacked(&terms)` :: R7 outline of an iterator fold; contract assumed (sum of unpacked_length, no overflow)
 //@ subst `terms.into_iter().map(|term| { get_one_term( self.http_client.clone(), self.chunk_cache.clone(), term, fetch_info.clone(), self.range_download_single_flight.clone(), ) })` => `self.vx_term_futures(terms, &fetch_info)` :: R7 outline: iterator of network futures (get_one_term per term, in plan order); contract assumed
-//@ subst `futures::stream::iter(futs_iter).buffered(*NUM_CONCURRENT_RANGE_GETS).enumerate()` => `vx_buffered_enumerate(futs_iter)` :: R11 stub: order-preserving buffered stream, numbered from 0
+//@ subst `futures::stream::iter` => `vx_stream_iter` :: R11 callee path of the futures dependency -> stub (the combinator calls `.buffered(..)`/`.enumerate()` stay as written)
 //@ subst `progress_updater.as_ref().inspect(|updater| updater.update(len_written));` => `vx_progress(&progress_updater, len_written);` :: R7 outline: closure over Option<Arc<dyn ProgressUpdater>>; no effect on the output
 //@ contract
     requires
